@@ -137,6 +137,9 @@ func runC16(c *Ctx, r *Report) {
 				// R1: rule fields
 				for f, w := range want {
 					v, ok := p.Heap[ruleObj+"."+f]
+					if !ok && strings.HasPrefix(ruleObj, "new ") {
+						v, ok = symBool(false), true // a field of the fresh rule object that was never assigned: still false
+					}
 					got := ok && v.Known && v.B
 					if !ok || !v.Known {
 						p1 = append(p1, "PermitCommand."+f+" is not set to a constant")
